@@ -26,7 +26,7 @@ for d in $demos; do mkdir -p $out/demo/$(dirname $d); cp $src/$d $out/demo/$d; c
 pkgs=$(for d in $demos; do echo ./$(dirname $d)/; done | sort -u | tr '\n' ' ')
 go test -vet=off -count=1 -run 'Seed|seed|Demo' $pkgs > $out/demo_with.log 2>&1; with=$?
 # checks against the changed tree
-fired=""
+fired=""; mkdir -p /var/tmp/vd-$name; cp /verif/known_findings.txt /var/tmp/vd-$name/
 for p in $(/verif/bin/pvcheck -list); do
   if ! PILOSA_REPO=$wt VERIF_DIR=/var/tmp/vd-$name /verif/bin/pvcheck -prop $p > $out/check_$p.log 2>&1; then fired="$fired $p"; else rm -f $out/check_$p.log; fi
 done
